@@ -198,6 +198,11 @@ def library(rng):
                                  "note": {":count": 2, "ty": 4, "i": "{idx}", "s": SampleRandomizer([3, 4, 5], counts=[1, 5, 1])}},
                       "item": {"leaf": {":count": 2, "ty": 3, "h": "{hier_idx}", "i": "{idx}",
                                         "f": RangeRandomizer(-1.0, 1.0, probability=0.7)}}}}))
+    defs.append(("one type below two parents", {
+        "types": {"leaf": {"icon": "gear"}},
+        "relations": {"__root__": {"folder": {":count": 2, "ty": 1, "i": "{idx}"}, "item": {":count": 1, "ty": 2}},
+                      "folder": {"leaf": {":count": 1, "ty": 3, "icon": "moon", "h": "{hier_idx}"}},
+                      "item": {"leaf": {":count": 3, "ty": 3, "g": 5, "i": "{idx}"}}}}))
     defs.append(("probability 0 and 1", {
         "relations": {"__root__": {"folder": {":count": 1, "ty": 1, "flag": SparseBoolRandomizer(probability=0.0),
                                               "v": ValueRandomizer(9, probability=1.0)}},
